@@ -20,7 +20,9 @@ def mk(rng, n):
 def scenario_trees(rng):
     big = mk(rng, 700_000)          # several 256 KiB transfer chunks
     mid = mk(rng, 300_000)
-    src = {"big.bin": big, "mid.bin": mid, "small.txt": b"small new\n", "empty": b"", "d/nested.txt": b"nested new\n", "same.txt": b"unchanged"}
+    # fresh/new.bin, new-note.txt: files the destination does not have yet (a NEW file too appears complete or not at all)
+    src = {"big.bin": big, "mid.bin": mid, "small.txt": b"small new\n", "empty": b"", "d/nested.txt": b"nested new\n", "same.txt": b"unchanged",
+           "fresh/new.bin": mk(rng, 200_000), "new-note.txt": b"a note the destination never had\n"}
     # mid.bin: an older version of EXACTLY the same length (only the mtime tells the quick check it differs)
     dst = {"big.bin": mk(rng, 650_000), "mid.bin": mk(rng, 300_000), "small.txt": b"small old version\n", "d/nested.txt": b"old", "same.txt": b"unchanged",
            "outside-plan.txt": b"must stay", "stale.txt": b"stale"}
@@ -220,6 +222,35 @@ def run(pid, tier, seed, rundir, model_run):
                     if rr.returncode != 0 or nonstaging(again) != nonstaging(fin):
                         diff = sorted(p for p in set(again) | set(fin) if again.get(p) != fin.get(p) and not p.endswith(".copia-tmp"))
                         res["violations"].append(("rerun-does-not-reach-uninterrupted-result", f"the same command after the crash: rc={rr.returncode}, differs at {diff[:4]}; {rr.stderr.decode('utf-8', 'replace')[-200:]}", rep))
+            # per delivered file: kill before the 1st, 2nd, 3rd call of each kind ON THAT FILE or its staging sibling (`strace -P`
+            # counts only calls on the given paths, so a write made by a pool thread is reached whatever the main thread prints
+            # meanwhile). A NEW file that is created at its real name and filled afterwards (seed C09-J) is empty here.
+            if direction in ("local", "pull") and not longlist:
+                for p in sorted(transferred):
+                    tpaths = [os.path.join(droot, p), os.path.join(droot, p) + ".copia-tmp"]
+                    for sc in ("openat", "write", "pwrite64", "copy_file_range", "sendfile", "rename", "ftruncate", "fchmod", "utimensat", "fsync"):
+                        for j in (1, 2, 3):
+                            restore()
+                            kr = subprocess.run(["strace", "-f", "-b", "execve", "-qq", "-o", "/dev/null", "-P", tpaths[0], "-P", tpaths[1], "-e", f"trace={sc}",
+                                                 "-e", f"inject={sc}:signal=SIGKILL:when={j}"] + cmd, env=sb.env, cwd=sb.dir, stdout=subprocess.PIPE, stderr=subprocess.PIPE)
+                            if kr.returncode == 0:
+                                break                   # fewer than j such calls on this file
+                            nk += 1
+                            count(f"{direction}/per-file/{sc}")
+                            time.sleep(0.05)
+                            after = read_tree(droot)
+                            rep = {"direction": direction, "flags": flags, "killed_before": f"{sc} #{j} on {p} or its staging sibling", "rc": kr.returncode}
+                            for q, c in nonstaging(after).items():
+                                if c != dst.get(q) and c != src.get(q):
+                                    res["violations"].append(("truncated-or-mixed-file-at-live-path", f"after the kill, destination {q} holds {len(c)} bytes that are neither its old bytes nor the complete source file ({len(src.get(q, b''))} bytes)", rep))
+                            for q in dst:
+                                if q not in after and q not in deleted:
+                                    res["violations"].append(("destination-file-missing-after-kill", f"after the kill, destination {q} is missing", rep))
+                            rr = subprocess.run(cmd, env=sb.env, cwd=sb.dir, stdout=subprocess.PIPE, stderr=subprocess.PIPE)
+                            again = read_tree(droot)
+                            if rr.returncode != 0 or nonstaging(again) != nonstaging(fin):
+                                diff = sorted(q for q in set(again) | set(fin) if again.get(q) != fin.get(q) and not q.endswith(".copia-tmp"))
+                                res["violations"].append(("rerun-does-not-reach-uninterrupted-result", f"the same command after the crash: rc={rr.returncode}, differs at {diff[:4]}", rep))
     # the Lean side of C09 has no per-run query: the model is the micro-step delivery (see Props/C09.lean)
     open(os.path.join(rundir, "ops.txt"), "w").close()
     res.update(evaluations=nk, distinct_nontrivial=nk, n_disagreements=0, n_oracle_failures=len(res["violations"]), traces_validated=0,
